@@ -32,7 +32,9 @@ def configs(tier):
     cs = [cfg(loads=big), cfg(loads=big, design={"continue_if_design_unmet": True}),
           cfg(loads=tiny), cfg(loads=tiny, design={"continue_if_design_unmet": True}),
           cfg("RECTANGLE", design={"max_boreholes": 12}), cfg("BIRECTANGLE", loads=big, design={"continue_if_design_unmet": True, "max_boreholes": 30}),
-          cfg("ROWWISE", loads=big), cfg("ROWWISE", loads=tiny, design={"continue_if_design_unmet": True})]
+          cfg("ROWWISE", loads=big), cfg("ROWWISE", loads=tiny, design={"continue_if_design_unmet": True}),
+          cfg("BIZONEDRECTANGLE", loads=big, design={"continue_if_design_unmet": True}),
+          cfg("BIRECTANGLECONSTRAINED", loads=big, design={"continue_if_design_unmet": True})]
     # RowWise borehole-removal path: the sparsest field suffices, smaller sub-fields may or may not
     cs += [rowwise_small_cfg(sc) for sc in ([9000.0, 14000.0, 22000.0] if tier == "quick" else [6000.0, 9000.0, 12000.0, 14000.0, 18000.0, 22000.0, 26000.0, 30000.0])]
     if tier != "quick":
